@@ -1,0 +1,118 @@
+//go:build verif
+
+package shell_operator
+
+import (
+	"context"
+	"fmt"
+	"strings"
+
+	"github.com/deckhouse/deckhouse/pkg/log"
+
+	klient "github.com/flant/kube-client/client"
+	"github.com/flant/shell-operator/pkg/app"
+	objectpatch "github.com/flant/shell-operator/pkg/kube/object_patch"
+	metricstorage "github.com/flant/shell-operator/pkg/metric_storage"
+	"github.com/flant/shell-operator/pkg/webhook/admission"
+	"github.com/flant/shell-operator/pkg/webhook/conversion"
+	"github.com/flant/shell-operator/pkg/webhook/server"
+)
+
+// VerifConfig carries what the verification harness substitutes for the
+// process-wide settings of Init(): clients, directories, webhook settings.
+type VerifConfig struct {
+	Ctx         context.Context
+	Logger      *log.Logger
+	KubeClient  *klient.Client
+	PatchClient *klient.Client
+	HooksDir    string
+	TempDir     string
+	// CAPath must exist; ServerCertPath must not (the TLS listeners are never started).
+	CAPath         string
+	ServerCertPath string
+	Namespace      string
+}
+
+// VerifAssemble builds a ShellOperator the way Init / AssembleCommonOperator /
+// assembleShellOperator do, with these differences only: kube clients, hooks
+// dir and temp dir come from cfg, metric storages use private registries,
+// the debug server and the API server are not created, and the webhook TLS
+// servers fail to start on purpose (their "load TLS certs" error is ignored).
+func VerifAssemble(cfg VerifConfig) (*ShellOperator, error) {
+	logger := cfg.Logger
+	if logger == nil {
+		logger = log.NewNop()
+	}
+	op := NewShellOperator(cfg.Ctx, WithLogger(logger))
+	op.APIServer = newBaseHTTPServer("127.0.0.1", "0")
+
+	// built-in metrics (setupMetricStorage with a private registry)
+	ms := metricstorage.NewMetricStorage(op.ctx, app.PrometheusMetricsPrefix, true, op.logger.Named("metric-storage"))
+	registerCommonMetrics(ms)
+	registerTaskQueueMetrics(ms)
+	registerKubeEventsManagerMetrics(ms, map[string]string{"hook": "", "binding": "", "queue": ""})
+	op.MetricStorage = ms
+
+	// metrics from user's hooks (setupHookMetricStorage)
+	op.HookMetricStorage = metricstorage.NewMetricStorage(op.ctx, app.PrometheusMetricsPrefix, true, op.logger.Named("metric-storage"))
+
+	op.KubeClient = cfg.KubeClient
+	patchClient := cfg.PatchClient
+	if patchClient == nil {
+		patchClient = cfg.KubeClient
+	}
+	op.ObjectPatcher = objectpatch.NewObjectPatcher(patchClient, op.logger.Named("object-patcher"))
+
+	op.SetupEventManagers()
+
+	// assembleShellOperator without debug routes.
+	registerHookMetrics(op.HookMetricStorage)
+
+	op.setupHookManagers(cfg.HooksDir, cfg.TempDir)
+	// Private copies of the process-wide webhook settings.
+	op.AdmissionWebhookManager.Settings = &admission.WebhookSettings{
+		Settings: server.Settings{
+			ServerCertPath: cfg.ServerCertPath,
+			ServerKeyPath:  cfg.ServerCertPath,
+			ServiceName:    "verif-validating-svc",
+			ListenAddr:     "127.0.0.1",
+			ListenPort:     "0",
+		},
+		CAPath:               cfg.CAPath,
+		ConfigurationName:    "verif-hooks",
+		DefaultFailurePolicy: "Fail",
+	}
+	op.AdmissionWebhookManager.Namespace = cfg.Namespace
+	op.ConversionWebhookManager.Settings = &conversion.WebhookSettings{
+		Settings: server.Settings{
+			ServerCertPath: cfg.ServerCertPath,
+			ServerKeyPath:  cfg.ServerCertPath,
+			ServiceName:    "verif-conversion-svc",
+			ListenAddr:     "127.0.0.1",
+			ListenPort:     "0",
+		},
+		CAPath: cfg.CAPath,
+	}
+	op.ConversionWebhookManager.Namespace = cfg.Namespace
+
+	if err := op.initHookManager(); err != nil {
+		return op, fmt.Errorf("initialize HookManager fail: %w", err)
+	}
+	if err := op.initValidatingWebhookManager(); err != nil && !strings.Contains(err.Error(), "load TLS certs") {
+		return op, fmt.Errorf("initialize ValidatingWebhookManager fail: %w", err)
+	}
+	if err := op.initConversionWebhookManager(); err != nil && !strings.Contains(err.Error(), "load TLS certs") {
+		return op, fmt.Errorf("initialize ConversionWebhookManager fail: %w", err)
+	}
+	return op, nil
+}
+
+// VerifStart performs the steps of Start() in the same order, without
+// APIServer.Start (a listening socket) and runMetrics (two endless sleep loops).
+func (op *ShellOperator) VerifStart() {
+	op.bootstrapMainQueue(op.TaskQueues)
+	op.TaskQueues.StartMain()
+	op.initAndStartHookQueues()
+	op.ManagerEventsHandler.Start()
+	op.ScheduleManager.Start()
+}
